@@ -538,6 +538,8 @@ def run_C03(ctx):
     data = correspondence(out, ctx, cases, engines=("np", "cs"), per_case_points=2 if quick else 6,
                           sym_types=("SX", "MX"), distinct=distinct)
     rng = ctx["rng"]
+    tf_correspondence(out, ctx, [(run, ("SX", "MX")[ci % 2], ci % 3, bool(ci % 2), None, None, pts[0][1])
+                                 for ci, (net, pv, pts, mtree, stree, run) in enumerate(data)])
     for ci, (net, pv, pts, mtree, stree, run) in enumerate(data):
         keys = state_keys(net)
         for pi, (mode, sv) in enumerate(pts):
@@ -608,6 +610,14 @@ def run_C04(ctx):
     cases = gen_cases(ctx, 10 if quick else 100)
     data = correspondence(out, ctx, cases, engines=("cs",), per_case_points=1, sym_types=("SX",),
                           distinct=distinct)
+    tfjobs = []
+    for ci, (net, pv, pts, mtree, stree, run0) in enumerate(data):
+        for compact in (0, 1, 2):
+            nm_ = default_names(net) if (ci + compact) % 2 == 0 else colliding_names(net, random.Random(ci))
+            tfjobs.append((Runner(net, pv, names=nm_), ("SX", "MX")[(ci + compact) % 2], compact,
+                           bool((ci // 2 + compact) % 2), {"pi_rho": True, "pn_w": True} if ci % 4 == 0 else None,
+                           None, pts[0][1]))
+    tf_correspondence(out, ctx, tfjobs)
     for ci, (net, pv, pts, mtree, stree, run0) in enumerate(data):
         keys = state_keys(net)
         for variant in range(2):
@@ -676,6 +686,9 @@ def run_C05(ctx):
     cases = gen_cases(ctx, 12 if quick else 120)
     data = correspondence(out, ctx, cases, engines=("cs",), per_case_points=2 if quick else 6,
                           sym_types=("SX",), distinct=distinct)
+    tf_correspondence(out, ctx, [(run0, ("SX", "MX")[ci % 2], ci % 3, True,
+                                  {"pi_v": True, "pi_w": True} if ci % 3 == 0 else None, None, pts[0][1])
+                                 for ci, (net, pv, pts, mtree, stree, run0) in enumerate(data)])
     for ci, (net, pv, pts, mtree, stree, run0) in enumerate(data):
         names = default_names(net) if ci % 2 == 0 else colliding_names(net, rng)
         run = Runner(net, pv, names=names, reads_seed=run0.reads_seed)
@@ -968,6 +981,7 @@ def run_C16(ctx):
     cases = gen_cases(ctx, 6 if quick else 80)
     data = correspondence(out, ctx, cases, engines=("cs",), per_case_points=1, sym_types=("SX",),
                           distinct=distinct)
+    tfjobs16 = []
     for ci, (net, pv, pts, mtree, stree, run) in enumerate(data):
         keys = state_keys(net)
         sv = pts[0][1]
@@ -983,6 +997,7 @@ def run_C16(ctx):
             if rep == 0:
                 ptoks = [t for t in cand if t.startswith("g.")][::-1] + ptoks[:2]
                 ptoks = list(dict.fromkeys(ptoks))
+            tfjobs16.append((run, ("SX", "MX")[(ci + rep) % 2], (ci + rep) % 3, bool(rep % 2), None, list(ptoks), sv))
             for sym in ("SX", "MX"):
                 for compact in ((0, 1, 2) if not quick else ((ci + rep) % 3,)):
                     more = bool((ci + rep) % 2)
@@ -1016,6 +1031,7 @@ def run_C16(ctx):
                         fail(out, f"C16:{topo_key(net)}:value", net, pv, sv,
                              f"{tag}: {k} = {x!r} with symbolic parameters evaluated at their values, {y!r} with numbers",
                              ptoks=ptoks, sym=sym, compact=compact)
+    tf_correspondence(out, ctx, tfjobs16)
     return finish(out, distinct, data, RULE + "; random subsets and orders of link/origin/model parameters made symbolic and declared; "
                   "SX/MX, compactness 0/1/2, with/without extra outputs; distinct = (topology, parameter list, symbol type, level)")
 
@@ -1455,3 +1471,56 @@ def run_C07(ctx):
                  "is_valid: every accepted network is stepped with NumPy (own variables; user arrays with (1,), 0-d and float "
                  "scalars) and CasADi SX/MX and compiled at compactness 0/1/2 with/without extra outputs, at boundary states")
     return out
+
+
+# ---------------------------------------------------------------------------
+# correspondence of ToFunction.v with Engine.to_function
+def tf_correspondence(out, ctx, jobs):
+    """jobs: list of (run, sym, compact, more_out, opts, ptoks, sv).  Compares the Coq ToFunction
+    model (argument names/symbols, result names/trees) with the compiled function."""
+    if not ctx["model_ok"] or not jobs:
+        return
+    import casadi as cs
+    terms = []
+    for (run, sym, compact, more, opts, ptoks, sv) in jobs:
+        pn = {t: pname(t) for t in (ptoks or [])}
+        terms.append(dyn.tf_term(run.net, run.names, opts, compact, more, ptoks, pn))
+    try:
+        models = dyn.tf_models(terms)
+    except Exception as ex:
+        out["disagreements"].append({"what": "ToFunction model could not be evaluated", "error": str(ex)[-500:]})
+        return
+    for (run, sym, compact, more, opts, ptoks, sv), m in zip(jobs, models):
+        net, pv = run.net, run.pv
+        tag = f"ToFunction model vs {sym} compact={compact} more_out={more} opts={[k for k, v in (opts or {}).items() if v]} params={ptoks}"
+        try:
+            F, _ = run.function(sym, compact, more, opts, ptoks)
+        except Exception as ex:
+            if m["err"] is None:
+                disagree(out, net, pv, sv, f"{tag}: implementation raised {ex!r:.200}, model returns a function")
+            continue
+        if m["err"] is not None:
+            disagree(out, net, pv, sv, f"{tag}: model error {m['err']}, implementation returns a function")
+            continue
+        out["coverage"]["evaluations"] += 1
+        got_in = [(F.name_in(i), F.size1_in(i) * F.size2_in(i)) for i in range(F.n_in())]
+        got_out = [(F.name_out(i), F.size1_out(i) * F.size2_out(i)) for i in range(F.n_out())]
+        mod_in = [(n, len(t)) for n, t in m["in"] if len(t) > 0 or True]
+        mod_out = [(n, len(t)) for n, t in m["out"]]
+        if [s for _, s in got_in] != [s for _, s in mod_in] or [s for _, s in got_out] != [s for _, s in mod_out]:
+            disagree(out, net, pv, sv, f"{tag}: sizes in {got_in} out {got_out}; model in {mod_in} out {mod_out}")
+            continue
+        if [n for n, _ in got_in] != [n for n, _ in mod_in] or [n for n, _ in got_out] != [n for n, _ in mod_out]:
+            out["info"].append(f"{net.family} {tag}: names differ from the model: {got_in} {got_out}")
+        env = dyn.env_of(pv, sv)
+        args = [cs.DM([env[t] for t in toks]) if toks else cs.DM(0, 1) for _, toks in m["in"]]
+        res = F(*args)
+        if not isinstance(res, (list, tuple)):
+            res = [res]
+        for (n, trees), r in zip(m["out"], res):
+            arr = np.array(r, dtype=float).reshape(-1)
+            for j, t_ in enumerate(trees):
+                v, mag, _, _ = tree.eval_tree(t_, env)
+                if not tree.close(v, float(arr[j]), mag):
+                    disagree(out, net, pv, sv, f"{tag}: result {n}[{j}] = {float(arr[j])!r}, model {v!r}")
+                    break
